@@ -71,6 +71,10 @@ func ruleS7(p *Prog, r *Report) {
 		if !returnsSlab(f) || !hasParamOfType(f, "SlabID") {
 			continue
 		}
+		if f.Object() != nil && !f.Object().Exported() && len(p.CallersOf(f)) > 0 && !p.consultsLayer(f, "deltas") && !p.consultsLayer(f, "cache") {
+			// a private helper that only reads the ledger: every call site is checked for the cache miss above
+			continue
+		}
 		n++
 		name := p.Name(f)
 		// calls that go towards the ledger: BaseStorage.Retrieve itself or callees that reach it
@@ -82,12 +86,17 @@ func ruleS7(p *Prog, r *Report) {
 			} else if call, ok := in.(ssa.CallInstruction); ok {
 				for _, c := range p.Callees(call) {
 					if reach[TopLevel(c)] && recvName(TopLevel(c)) == storageT {
-						towards, layer = true, "deltas"
-						// a callee that itself ignores the write set requires the caller to have consulted it
-						if !p.consultsLayer(TopLevel(c), "deltas") {
-							layer = "deltas"
-						} else {
+						towards = true
+						// the caller must have missed in the layer directly above the first one the callee consults:
+						// a callee that consults the write set needs nothing, one that starts at the read cache needs a
+						// write-set miss, one that goes straight to the ledger (an extracted helper) needs a cache miss
+						switch {
+						case p.consultsLayer(TopLevel(c), "deltas"):
 							layer = ""
+						case p.consultsLayer(TopLevel(c), "cache"):
+							layer = "deltas"
+						default:
+							layer = "cache"
 						}
 					}
 				}
@@ -154,6 +163,35 @@ func ruleS7(p *Prog, r *Report) {
 			if ex, ok := canon(fw.Val).(*ssa.Extract); ok && ex.Index == 0 {
 				if c, ok := ex.Tuple.(*ssa.Call); ok && c.Call.StaticCallee() != nil && c.Call.StaticCallee().Name() == "DecodeSlab" {
 					dec = len(c.Call.Args) > 0 && sameValue(c.Call.Args[0], fw.Key)
+				} else if ok && c.Call.StaticCallee() != nil && recvName(c.Call.StaticCallee()) == storageT {
+					// a private helper of the storage that returns DecodeSlab(its id parameter, ...) on success,
+					// called with the same id
+					g := c.Call.StaticCallee()
+					for pi, prm := range g.Params {
+						if typeName(prm.Type()) != "SlabID" || pi >= len(c.Call.Args) || !sameValue(c.Call.Args[pi], fw.Key) {
+							continue
+						}
+						all := len(g.Blocks) > 0
+						for _, ret := range returnsOf(g) {
+							if cl, _ := classifyReturn(ret); cl == retError || len(ret.Results) == 0 {
+								continue
+							}
+							rv := canon(ret.Results[0])
+							if isNilConst(rv) {
+								continue // the not-found answer
+							}
+							e2, ok := rv.(*ssa.Extract)
+							if !ok || e2.Index != 0 {
+								all = false
+								continue
+							}
+							c2, ok := e2.Tuple.(*ssa.Call)
+							if !ok || c2.Call.StaticCallee() == nil || c2.Call.StaticCallee().Name() != "DecodeSlab" || len(c2.Call.Args) == 0 || !sameValue(c2.Call.Args[0], prm) {
+								all = false
+							}
+						}
+						dec = all
+					}
 				}
 			}
 			r.Decide(dec, R, "cache-fill-value:"+name, p.InstrPos(in),
